@@ -26,7 +26,7 @@ if not NATIVE:
 
 from insights.core import dr, filters as F, plugins, spec_factory as SF  # noqa: E402
 from insights.core.context import HostContext, HostArchiveContext  # noqa: E402
-from insights.core.exceptions import NoFilterException  # noqa: E402
+from insights.core.exceptions import NoFilterException, ContentException  # noqa: E402
 from insights.cleaner.filters import AllowFilter  # noqa: E402
 from insights import cleaner as CL  # noqa: E402
 from insights.core.plugins import combiner, parser, datasource  # noqa: E402
@@ -86,8 +86,17 @@ def applies(target, lookup):
     return target == lookup              # on one implementation only
 
 
+HIST_LINES = ["a f1 line", "f2 and f3", "f1 again", "nothing", "f1 f2 f3", "last f1"]
+
+
+def storage(target):
+    """a filter registered on the spec, or through a parser / combiner depending on it, is stored on the spec (budgets for one
+    string merge by maximum there); one registered on an implementation is stored on that implementation"""
+    return "R" if target in ("R", "P", "C") else target
+
+
 def run_history(g, ops):
-    """-> list of (op index, observed set or dict, expected filter set, candidates for budgets)"""
+    """-> list of (op index, observed set or dict, expected {filter: set of acceptable budgets})"""
     out = []
     reg = []
     for i, op in enumerate(ops):
@@ -99,16 +108,39 @@ def run_history(g, ops):
             # what a provider of this datasource does when it loads content during analysis: post-filter with the
             # look-up result (spec_factory.FileProvider keeps get_filters(ds, True) and hands it to filter_content)
             fl = F.get_filters(g[op[1]], True)
-            AllowFilter.filter_content(["a f1 line", "f2 and f3", "f1 again", "nothing"], fl)
+            AllowFilter.filter_content(list(HIST_LINES), fl)
+        elif op[0] == "collect":
+            # what host collection does with this datasource: a file provider is created (it keeps the look-up result) and its
+            # content goes through the cleaner with that result as allow-list (ContentProvider._clean_content)
+            if F.get_filters(g[op[1]]):
+                prov = SF.TextFileProvider("file", root=_scratch(), ds=g[op[1]], ctx=HostContext(root=_scratch()), cleaner=_cleaner())
+                prov._content = list(HIST_LINES)      # instead of running the grep pre-filter as a subprocess
+                prov.loaded = True
+                try:
+                    prov._clean_content()
+                except ContentException:
+                    pass
         else:
             _, t, wm = op
             got = F.get_filters(g[t], wm)
             exp = {}
+            groups = {}
             for (rt, p, b) in reg:
                 if applies(rt, t):
-                    exp.setdefault(p, set()).add(b)
+                    groups[(storage(rt), p)] = max(groups.get((storage(rt), p), 0), b)
+            for (st, p), b in groups.items():
+                exp.setdefault(p, set()).add(b)
             out.append((i, got, exp))
     return out
+
+
+_CLEANER = [None]
+
+
+def _cleaner():
+    if _CLEANER[0] is None:
+        _CLEANER[0] = CL.Cleaner(K.Cfg(obfuscate=False), {}, "h.example.org")
+    return _CLEANER[0]
 
 
 def judge_history(res):
@@ -120,7 +152,7 @@ def judge_history(res):
         elif isinstance(got, dict):
             for p, b in got.items():
                 if b not in exp[p]:
-                    bad.append("look-up at step %d: budget %r for %s was never registered (%s)" % (i, b, p, sorted(exp[p])))
+                    bad.append("look-up at step %d: budget %r for %s is not the budget in force (largest registered: %s)" % (i, b, p, sorted(exp[p])))
     return bad
 
 
@@ -131,8 +163,10 @@ def make_history(k):
             n = 1 + en.choice("n", k)
             ops = []
             for i in range(n):
-                okind = en.choice("opkind%d" % i, 3)
-                if okind == 0:
+                okind = en.choice("opkind%d" % i, 4)
+                if okind == 3:
+                    ops.append(("collect", LOOKUPS[en.choice("co%d" % i, len(LOOKUPS))]))
+                elif okind == 0:
                     ops.append(("add", TARGETS[en.choice("t%d" % i, len(TARGETS))], PATS[en.choice("p%d" % i, len(PATS))], BUDGETS[en.choice("b%d" % i, len(BUDGETS))]))
                 elif okind == 1:
                     ops.append(("load", LOOKUPS[en.choice("ld%d" % i, len(LOOKUPS))]))
@@ -382,9 +416,10 @@ def obligations(tier):
            SF.TextFileProvider.create_args, SF.CommandOutputProvider.create_args, SF.FileProvider.validate, SF.CommandOutputProvider.validate]
     return [
         Obligation("O1-histories", make_history(4 if thorough else 3), ["effective-set"],
-                   desc="interleavings of add_filter on a spec / an implementation / a parser / a combiner, content loads that post-filter with the look-up result, and get_filters on the spec and both implementations",
+                   desc="interleavings of add_filter on a spec / an implementation / a parser / a combiner, content loads that post-filter with the look-up result (analysis) or clean with it as allow-list (host collection), and get_filters on the spec and both implementations; every look-up returns the registered filters with the largest budget registered per storage component",
                    bounds={"history length": "<= %d operations + a final look-up" % (4 if thorough else 3), "targets": TARGETS, "look-ups": LOOKUPS, "patterns": PATS, "budgets": BUDGETS},
-                   outside=["filters.yaml loading (yaml is C code)"], encoded=enc[:2], budget_s=900 if thorough else 120, replay="history", check_sample=True),
+                   stubs=["host collection: the provider's content is preset instead of running the grep pre-filter as a subprocess"],
+                   outside=["filters.yaml loading (yaml is C code)"], encoded=enc[:2] + [SF.ContentProvider._clean_content, SF.FileProvider.__init__], budget_s=900 if thorough else 120, replay="history", check_sample=True),
         Obligation("O2-kept-lines", make_kept(5 if thorough else 4, 3 if thorough else 2), ["kept-lines"],
                    desc="AllowFilter.filter_content, Cleaner.clean_content(allowlist) and apply_filters on lines with a symbolic containment matrix and symbolic budgets",
                    bounds={"lines": 5 if thorough else 4, "filters": 3 if thorough else 2, "containment": "every boolean matrix", "budgets": "symbolic ints in [1,3]"},
